@@ -128,6 +128,12 @@ fn arb_piggyback_msg(s: &mut impl Src) -> Message<Id> {
 
 /// kind class: 0 = piggybacking non-Feed kinds, 1 = Feed, 2 = Announce/TurnUndead, 3 = Broadcast
 fn send_obligation<S: Src>(s: &mut S, class: u8, pkt: usize, k: usize, backlog: usize, custom: usize, failing: bool) {
+    send_obligation_f(s, class, pkt, k, backlog, custom, if failing { Some(2) } else { None })
+}
+/// `fail_at`: None = codec never fails; Some(0|1) = the n-th bounded encode_member fails
+/// after writing 0..=3 stray bytes; Some(2) = which one fails is symbolic
+fn send_obligation_f<S: Src>(s: &mut S, class: u8, pkt: usize, k: usize, backlog: usize, custom: usize, fail_at: Option<u8>) {
+    let failing = fail_at.is_some();
     let mut sh = Shape::k(k);
     sh.pkt = pkt;
     sh.backlog = backlog;
@@ -135,10 +141,11 @@ fn send_obligation<S: Src>(s: &mut S, class: u8, pkt: usize, k: usize, backlog: 
     sh.handler_arb = true;
     sh.probe = false;
     let mut f = arb_foca(s, sh);
-    if failing {
-        f.codec.fail_member_at = Some(s.below(2));
+    if let Some(n) = fail_at {
+        f.codec.fail_member_at = Some(if n < 2 { n } else { s.below(2) });
         f.codec.dirty = s.below(4);
     }
+    let _ = failing;
     let pre = snap(&f);
     let dst = Id::arb(s);
     let msg = match class {
@@ -312,6 +319,13 @@ sh!(c07_send_feed_17, 1, 17, 2, 1, 1, false);
 sh!(c07_send_feed_22, 1, 22, 3, 1, 1, false);
 sh!(c07_send_feed_32, 1, 32, 3, 1, 1, false);
 sh!(c07_send_feed_failing, 1, 22, 2, 0, 0, true);
+/// the first / the second member of a Feed fails to encode after writing stray bytes
+pub fn c07_send_feed_fail_first<S: Src>(s: &mut S) {
+    send_obligation_f(s, 1, 22, 2, 0, 0, Some(0))
+}
+pub fn c07_send_feed_fail_second<S: Src>(s: &mut S) {
+    send_obligation_f(s, 1, 22, 2, 0, 0, Some(1))
+}
 // Announce / TurnUndead / Broadcast
 sh!(c07_send_bare_10, 2, 10, 1, 1, 1, false);
 sh!(c07_send_bare_32, 2, 32, 1, 1, 1, false);
